@@ -1,6 +1,7 @@
 import Frp.Driver.Proto
 import Frp.Model.Md5
 import Frp.Props.C08
+import Frp.Model.CtlMgr
 /-
   Driver engine "visitor": replays the harness trace (harness/eng_visitor.go) on the Visitor model
   and evaluates the C08 predicate on the implementation's own answers.
@@ -40,6 +41,13 @@ structure St where
   -- reported as made (lid ↦ key, list, from `listen … => ok:<lid>`) and the requests sent (conn id ↦ ts, sign, user)
   implLs : List (Nat × Str × List Str) := []
   reqs : List (Nat × Int × Str × Str) := []
+  -- layer B: the ControlManager with control identities (Frp/Model/CtlMgr.lean; `B.ctls` is its projection,
+  -- C08.ctls_track_manager), and the controls logged in so far (n ↦ login user)
+  cm : CtlMgr.Tbl := []
+  loginUsers : List (Nat × Str) := []
+  -- what the implementation's own session tables held after the last NAT-hole request (layer A / layer B)
+  leftA : Nat := 0
+  leftB : Nat := 0
 
 def sidOf (n : Nat) : Str := 115 :: (Nat.toDigits 10 n).map (·.toNat)
 
@@ -131,6 +139,23 @@ def connOutStr : ConnOut → String
 
 def grantedImpl (impl : String) : Bool := !(impl.startsWith "err:") && impl != "preok"
 
+/-- "<answer> left=<n>" ↦ (answer, n);  "<answer> cm=<x>" ↦ (answer, x) -/
+def splitSuffix (impl key : String) : Option (String × String) :=
+  match impl.splitOn (" " ++ key ++ "=") with
+  | [a, b] => some (a, b)
+  | _ => none
+
+def leftOf (impl : String) : Option (String × Nat) :=
+  match splitSuffix impl "left" with
+  | some (a, b) => b.toNat?.map (fun n => (a, n))
+  | none => none
+
+/-- C08 "… and leaves no session state behind" on the implementation's own table: `C08.leavesNothingB` -/
+def leftProp (granted : Bool) (before : Nat) (impl : String) : Option Bool :=
+  (leftOf impl).map (fun (_, n) => C08.leavesNothingB granted before n)
+
+def leftAfter (before : Nat) (impl : String) : Nat := match leftOf impl with | some (_, n) => n | none => before
+
 /-- `conn` / `vbegin`: one NewConn call -/
 def beginOp (st : St) (op name ts sign user conn ec impl : String) : St × Verdict :=
     match unhx name, ts.toInt?, unhx sign, unhx user, conn.toNat? with
@@ -147,7 +172,7 @@ def beginOp (st : St) (op name ts sign user conn ec impl : String) : St × Verdi
 
 def step (st : St) (tok : List String) (impl : String) : St × Verdict :=
   match tok with
-  | ["reset"] => ({}, verdictOf "-" impl)
+  | ["reset"] => ({ leftB := st.leftB }, verdictOf "-" impl)   -- layer A gets a new controller, the service of layer B lives on
   | ["key", sk, ts] =>
     match unhx sk, ts.toInt? with
     | some sk, some ts => (st, verdictOf (hx (authKey H sk ts)) impl)
@@ -242,19 +267,46 @@ def step (st : St) (tok : List String) (impl : String) : St × Verdict :=
         | .nat (.granted ch) => s!"sid:{ch}"
         | .nat (.err e) => "err:" ++ errStr e
         | _ => "?"
-      ({ st with A := { st.A with s := a' }, nsid := st.nsid + 1 }, verdictOf (ms ++ " left=0") impl
-        (some (C08.holdsOn valid (impl.startsWith "sid:"))))
+      let granted := impl.startsWith "sid:"
+      ({ st with A := { st.A with s := a' }, nsid := st.nsid + 1, leftA := leftAfter st.leftA impl },
+        verdictOf (ms ++ " left=0") impl (andOpt (some (C08.holdsOn valid granted)) (leftProp granted st.leftA impl)))
     | _, _, _, _, _, _ => (st, .bad "natv")
+  | ["natflood", name, ts, sign, user, pc, ua, k] =>
+    match unhx name, ts.toInt?, unhx sign, unhx user, flag pc "pc=", flag ua "ua=", k.toNat? with
+    | some name, some ts, some sign, some user, some pc, some ua, some k =>
+      if !uaOk st.A.s.natCfgs name user ua then (st, .bad "ua annotation") else
+      -- k identical requests: each is decided on the client table alone (C08.natVisit_out_indep); a refused one stores
+      -- nothing, a granted one stores its session until its handler ends (C08.flood_refused_leaves_nothing)
+      let valid := C08.natAdmB H st.A.s.natCfgs name ts sign user
+      let sid := sidOf st.nsid
+      let o := (Visitor.step natFixed H st.A.s (.natVisit sid name ts sign user pc)).2
+      let ms := match o with
+        | .nat .preOk => "preok"
+        | .nat (.granted ch) => s!"sid:{ch}"
+        | .nat (.err e) => "err:" ++ errStr e
+        | _ => "?"
+      let granted := (impl.splitOn "sid:").length > 1
+      ({ st with nsid := st.nsid + k, leftA := leftAfter st.leftA impl },
+        verdictOf (ms ++ s!"*{k} left=0") impl (andOpt (some (C08.holdsOn valid granted)) (leftProp granted st.leftA impl)))
+    | _, _, _, _, _, _, _ => (st, .bad "natflood")
   -- ---------------------------------------------------------------- layer B
-  | ["slogin", rid, user] =>
-    match unhx rid, unhx user with
-    | some rid, some user =>
-      if rid = [] ∨ (NatHole.aget st.B.ctls rid).isSome then (st, .bad "slogin: run id must be fresh and non-empty") else
-      ({ st with B := (Visitor.step natFixed H st.B (.login rid user)).1 }, verdictOf "ok" impl)
-    | _, _ => (st, .bad "slogin")
+  | ["slogin", rid, user, n] =>
+    match unhx rid, unhx user, n.toNat? with
+    | some rid, some user, some n =>
+      -- (an empty run id makes frps invent one: not driven)  A live run id is a re-login: the control registered under
+      -- it is replaced (ControlManager.Add), its proxies are closed before the login is answered
+      if rid = [] then (st, .bad "slogin: run id must be non-empty") else
+      if (lookupNat st.loginUsers n).isSome then (st, .bad "slogin: control number used before") else
+      ({ st with B := (Visitor.step natFixed H st.B (.login rid user)).1,
+                 cm := (CtlMgr.add st.cm rid { id := n, user := user }).1,
+                 loginUsers := (n, user) :: st.loginUsers }, verdictOf "ok" impl)
+    | _, _, _ => (st, .bad "slogin")
   | ["slogout", rid] =>
     match unhx rid with
-    | some rid => ({ st with B := (Visitor.step natFixed H st.B (.logout rid)).1 }, verdictOf "-" impl)
+    | some rid =>
+      -- the control registered under the run id ends; its goroutine's Del removes it (it is the registered one)
+      ({ st with B := (Visitor.step natFixed H st.B (.logout rid)).1, cm := CtlMgr.cmStep st.cm 0 (.logout rid) },
+       verdictOf "-" impl)
     | none => (st, .bad "slogout")
   | ["sreg", rid, kind, name, sk, allow, _ec] =>
     match unhx rid, kindOf kind, unhx name, unhx sk, unlist allow with
@@ -271,9 +323,17 @@ def step (st : St) (tok : List String) (impl : String) : St × Verdict :=
   | ["svis", rid, name, ts, sign, _ec, conn] =>
     match unhx rid, unhx name, ts.toInt?, unhx sign, conn.toNat? with
     | some rid, some name, some ts, some sign, some conn =>
-      let valid := match resolveUser st.B.ctls rid with
+      -- the user the request must be judged for: the login user of the control that currently owns the claimed run id
+      -- (C08.cm_designates / visitor_user_is_current_owner: latest acknowledged login under it whose control has not
+      -- ended), "" for the empty run id, nobody (⇒ must be refused) if no control owns it.  The implementation's own
+      -- ControlManager is asked which control IT holds under the run id (`cm=<n>`, Service.VerifSessDump) and the answer
+      -- is compared with the model's table, so that the two designate the same control on every line that is judged.
+      let (body, cmImpl) := match splitSuffix impl "cm" with | some (a, b) => (a, b) | none => (impl, "?")
+      let valid := match CtlMgr.visitorUser st.cm rid with
         | .ok user => C08.admissibleB H st.B.listeners name ts sign user
         | .error _ => false
+      let cmModel := if rid = [] then "-" else match CtlMgr.getByID st.cm rid with | some c => toString c.id | none => "-"
+      let impl := body
       let owner := (NatHole.aget st.B.listeners name).map (·.owner)
       let (b, o) := Visitor.step natFixed H st.B (.visitorConn name ts sign rid conn)
       -- the proxy's accept loop takes the connection at once
@@ -284,8 +344,9 @@ def step (st : St) (tok : List String) (impl : String) : St × Verdict :=
         | _, _ => "?"
       -- an admitted stream must be transparent both ways (C08.transparent): no "noecho"
       let echoOk := !(impl.endsWith ":noecho1" || impl.endsWith ":noecho2")
-      ({ st with B := b' }, verdictOf ms impl
-        (some (C08.holdsOn valid (!(impl.startsWith "err:") || !(impl.endsWith "req=-")) && echoOk)))
+      let granted := !(impl.startsWith "err:") || !(impl.endsWith "req=-")
+      ({ st with B := b' }, verdictOf (ms ++ " cm=" ++ cmModel) (impl ++ " cm=" ++ cmImpl)
+        (some (C08.holdsOn valid granted && echoOk)))
     | _, _, _, _, _ => (st, .bad "svis")
   | ["snat", rid, name, ts, sign, pc, ua] =>
     match unhx rid, unhx name, ts.toInt?, unhx sign, flag pc "pc=", flag ua "ua=" with
@@ -304,8 +365,10 @@ def step (st : St) (tok : List String) (impl : String) : St × Verdict :=
           | .nat (.granted _), some ow => s!"sid:{hx ow}"
           | .nat (.err e), _ => "err:" ++ errStr e ++ " req=-"
           | _, _ => "?"
-        ({ st with B := b', nsid := st.nsid + 1 }, verdictOf ms impl
-          (some (C08.holdsOn valid (impl.startsWith "sid:" || !(impl.endsWith "req=-")))))
+        let body := match leftOf impl with | some (a, _) => a | none => impl
+        let granted := body.startsWith "sid:" || !(body.endsWith "req=-")
+        ({ st with B := b', nsid := st.nsid + 1, leftB := leftAfter st.leftB impl }, verdictOf (ms ++ " left=0") impl
+          (andOpt (some (C08.holdsOn valid granted)) (leftProp granted st.leftB impl)))
     | _, _, _, _, _, _ => (st, .bad "snat")
   | _ => (st, .bad "op")
 
